@@ -148,7 +148,18 @@ QsOK(e) ==
 
 \* class group sieve (classgroup.rs): like SIQS; nfacs = 0 selects the unit form, which Poly::first
 \* only supports below 128 bits
+\* The class group sieve asserts that it obtained at least `acount` distinct leading coefficients
+\* (classgroup.rs: assert!(a_ints.len() >= a_count)), and A values are nfacs-subsets of a pool of
+\* at most 4*nfacs factor-base primes (siqs::select_siqs_factors): acount <= C(4*nfacs, nfacs).
+\* The binomial exceeds 2^31 from nfacs = 11 on, where every table value is far below it.
+RECURSIVE BinomFrom(_, _, _, _)
+BinomFrom(n, k, i, acc) == IF i > k THEN acc ELSE BinomFrom(n, k, i + 1, (acc * (n - k + i)) \div i)
+Binom4(k) == BinomFrom(4 * k, k, 1, 1)          \* C(4k, k), k <= 8: every intermediate < 2^31
+ACountFits(acount, nfacs) ==
+  LET k == ToInt(nfacs) IN k = 0 \/ k >= 9 \/ (FitsInt(acount) /\ ToInt(acount) <= Binom4(k))
+
 ClsOK(e) ==
+  /\ ACountFits(e.acount, e.nfacs)
   /\ FBaseOK(e.fb)
   /\ FitsInt(e.nfacs)
   /\ IF ToInt(e.nfacs) = 0 THEN e.bits < 128
